@@ -59,6 +59,12 @@ func (seq *Sequence) Release() error {
 	seq.Lock()
 	defer seq.Unlock()
 
+	// nothing is leased (fresh or already released sequence), so there is nothing to give back;
+	// writing seq.next here would roll the stored value back and hand out numbers twice.
+	if seq.next >= seq.reserved {
+		return nil
+	}
+
 	var buf [8]byte
 	binary.BigEndian.PutUint64(buf[:], seq.next)
 	if err := seq.store.Set(seq.key, buf[:]); err != nil {
